@@ -6,8 +6,9 @@ where
     F: FnOnce(&'a str) -> R,
     R: fmt::Display,
 {
-    let start = s.len() - s.trim_start_matches('_').len();
-    let end = s.trim_end_matches('_').len();
+    let trimmed = s.trim_start_matches('_');
+    let start = s.len() - trimmed.len();
+    let end = start + trimmed.trim_end_matches('_').len();
 
     format!("{}{}{}", &s[..start], convert(&s[start..end]), &s[end..],)
 }
